@@ -268,6 +268,35 @@ class CFG:
                 stack.append(v)
         return seen
 
+    def natural_loop(self, head):
+        """nodes of the natural loop(s) with header `head` (a join node): the header plus every node
+        that reaches one of its back-edge sources without passing the header"""
+        hid = head if isinstance(head, int) else head['id']
+        if not hasattr(self, '_dom'):
+            self._dom = self.dominators()
+        tails = [p for (p, _) in self.nodes[hid]['pred'] if hid in self._dom.get(p, ())]
+        loop = {hid}
+        stack = list(tails)
+        while stack:
+            u = stack.pop()
+            if u in loop:
+                continue
+            loop.add(u)
+            for (p, _) in self.nodes[u]['pred']:
+                if p not in loop:
+                    stack.append(p)
+        return loop
+
+    def innermost_loop_of(self, nid):
+        """natural loop of the innermost loop header whose loop contains node nid"""
+        best = None
+        for n in self.live():
+            if n['kind'] == 'join' and n.get('loop'):
+                lp = self.natural_loop(n['id'])
+                if nid in lp and (best is None or len(lp) < len(best)):
+                    best = lp
+        return best
+
     def must_pass(self, target, through_nodes=(), through_edges=(), start=None):
         """True iff every path from start (default entry) to target passes a
         node in through_nodes or an edge in through_edges."""
